@@ -65,6 +65,8 @@ package op
 //@   ensures fail-closed: err != nil ==> result0 == nil
 //@   ensures valid: err == nil ==> valid(result0)
 //@   ensures method: err == nil ==> result0.AuthMethod() == oidc.AuthMethodPrivateKeyJWT
+//@   ensures assertion-verified: err == nil ==> callres("op.VerifyJWTAssertion", 1) == nil
+//@   ensures client-is-issuer: err == nil ==> result0.GetID() == callres("op.VerifyJWTAssertion", 0).Issuer
 //@   defines authenticated: err == nil ==> authenticated(result0.GetID())
 
 // tokensIssued(resp, request, client, code, refreshToken) is *defined* as "CreateTokenResponse
@@ -163,7 +165,7 @@ package op
 // signatures with the token's algorithm (kid rules: see oidc.FindMatchingKey) and go-jose
 // verified the signature with exactly that key.
 //@ func op.OpenIDKeySet.VerifySignature
-//@   requires valid(o) && jws != nil
+//@   requires valid(o) && valid(jws)
 //@   ensures fail-closed: err != nil ==> result0 == nil
 //@   ensures selected: err == nil ==> callres("oidc.FindMatchingKey", 1) == nil
 //@   ensures usable-selected: err == nil ==> usableKey(callres("oidc.FindMatchingKey", 0), "sig", callres("oidc.GetKeyIDAndAlg", 1))
@@ -171,19 +173,20 @@ package op
 
 // The JWT-profile key set verifies with the key the storage files under (kid, client id).
 //@ func op.jwtProfileKeySet.VerifySignature
-//@   requires k != nil && jws != nil
+//@   requires valid(k) && valid(jws)
 //@   ensures fail-closed: err != nil ==> payload == nil
 //@   ensures storage-key: err == nil ==> callres("op.JWTProfileKeyStorage.GetKeyByIDAndClientID", 1) == nil
 //@        && callres("op.JWTProfileKeyStorage.GetKeyByIDAndClientID", 0) != nil
 //@        && joseVerified(jws, *callres("op.JWTProfileKeyStorage.GetKeyByIDAndClientID", 0), bstr(payload))
+//@   ensures key-of-this-client: err == nil ==> keyOfClient(callres("op.JWTProfileKeyStorage.GetKeyByIDAndClientID", 0), callres("oidc.GetKeyIDAndAlg", 0), k.clientID)
 
 // Options store the key set they are given in the field they name, and nothing else.
 //@ func op.WithIDTokenHintKeySet$1
-//@   requires o != nil
+//@   requires valid(o)
 //@   modifies o.idTokenHinKeySet
 //@   ensures stored: o.idTokenHinKeySet == keySet && result == nil
 //@ func op.WithAccessTokenKeySet$1
-//@   requires o != nil
+//@   requires valid(o)
 //@   modifies o.accessTokenKeySet
 //@   ensures stored: o.accessTokenKeySet == keySet && result == nil
 
@@ -196,12 +199,12 @@ package op
 //@      exists ks *jwtProfileKeySet :: ks != nil && ks.storage == storage && ks.clientID == clientID && sigChecked(token, payload, ks, nil)
 
 //@ func op.SubjectIsIssuer
-//@   requires request != nil
+//@   requires valid(request)
 //@   modifies nothing
 //@   ensures iff: result == nil <==> request.Issuer == request.Subject
 
 //@ func op.VerifyJWTAssertion
-//@   requires v != nil
+//@   requires valid(v)
 //@   ensures clock: old(wallclock) <= wallclock
 //@   ensures fail-closed: err != nil ==> result0 == nil
 //@   ensures valid: err == nil ==> result0 != nil
@@ -216,7 +219,7 @@ package op
 // A request object counts only when it is signed with a key of the client it names as issuer, and
 // that issuer is the outer client_id; until then the auth request is left untouched.
 //@ func op.ParseRequestObject
-//@   requires authReq != nil && valid(storage)
+//@   requires valid(authReq) && valid(storage)
 //@   ensures unchanged-on-error: result != nil ==> authReq.ClientID == old(authReq.ClientID) && authReq.Scopes == old(authReq.Scopes)
 //@        && authReq.RedirectURI == old(authReq.RedirectURI) && authReq.State == old(authReq.State) && authReq.Nonce == old(authReq.Nonce)
 //@        && authReq.ResponseType == old(authReq.ResponseType) && authReq.ResponseMode == old(authReq.ResponseMode)
@@ -229,7 +232,7 @@ package op
 //@   ensures consumed: result == nil ==> authReq.RequestParam == ""
 
 //@ func op.CopyRequestObjectToAuthRequest
-//@   requires authReq != nil && requestObject != nil
+//@   requires valid(authReq) && valid(requestObject)
 //@   modifies *authReq
 //@   ensures identity-kept: authReq.ClientID == old(authReq.ClientID) && authReq.ResponseType == old(authReq.ResponseType)
 //@   ensures consumed: authReq.RequestParam == ""
@@ -238,3 +241,19 @@ package op
 //@   ensures nonce: authReq.Nonce == ite(requestObject.Nonce != "", requestObject.Nonce, old(authReq.Nonce))
 //@   ensures challenge: authReq.CodeChallenge == ite(requestObject.CodeChallenge != "", requestObject.CodeChallenge, old(authReq.CodeChallenge))
 //@   ensures scopes: authReq.Scopes == ite(contains(old(authReq.Scopes), oidc.ScopeOpenID) && len(requestObject.Scopes) > 0, requestObject.Scopes, old(authReq.Scopes))
+
+// private_key_jwt for the introspection / revocation / device endpoints: the authenticated client
+// id is exactly the issuer of the verified assertion.
+//@ func op.ClientJWTAuth
+//@   requires valid(verifier)
+//@   ensures missing: ca.ClientAssertion == "" ==> err != nil
+//@   ensures verified: err == nil ==> callres("op.VerifyJWTAssertion", 1) == nil
+//@   ensures identity-is-issuer: err == nil ==> clientID == callres("op.VerifyJWTAssertion", 0).Issuer
+//@   ensures fail-closed: err != nil ==> clientID == ""
+
+// jwt-bearer grant (legacy handler): a 200 answer only after the assertion verified.
+//@ func op.JWTProfile
+//@   requires !Resp_written[w] && valid(r) && valid(exchanger) && valid(w)
+//@   ensures responded: Resp_written[w]
+//@   ensures success-only-verified: Resp_status[w] == 200 ==> callres("op.VerifyJWTAssertion", 1) == nil
+//@        && callres("op.CreateJWTTokenResponse", 1) == nil
